@@ -46,7 +46,7 @@ def cases(draw):
     cause = draw(st.sampled_from(table[point]))
     sched = draw(conc.schedules(250))
     return {"role": role, "point": point, "cause": cause, "sched": sched, "lines": draw(st.booleans()) if sched else False,
-            "n_queued": draw(st.integers(1, 4))}
+            "n_queued": draw(st.integers(1, 4)), "holds": draw(conc.holds())}
 
 
 def run_one(case):
@@ -86,6 +86,7 @@ def run_one(case):
         # ---------------- generated part: the cause, under the generated schedule prefix
         w.sched.choices = list(case["sched"])
         w.sched.choice_i = 0
+        conc.apply_holds(w, case.get("holds"))
         if point == "open-inbound-queued":
             for i in range(case["n_queued"]):
                 w.feed(app_request(3000 + i, 4000 + i, dest_realm=LOCAL["realm"]))
@@ -171,6 +172,8 @@ def _collect(shard, seed, n):
             f.add("prefix-with-switch")
         if info.get("line_switches"):
             f.add("preempted-at-source-line")
+        if case.get("holds"):
+            f.add("targeted-delay")
         nt = not (case["point"] == "open-idle" and case["cause"] == "local-close")
         col.record(case, vs, nontrivial=nt, classes=sorted(f))
 
@@ -179,7 +182,7 @@ def _collect(shard, seed, n):
 
 
 def main(ctx):
-    col = common.run_shards(_collect, 8 if ctx.quick else 16, ctx.seed, n=40 if ctx.quick else 800)
+    col = common.run_shards(_collect, 8 if ctx.quick else 16, ctx.seed, n=80 if ctx.quick else 2500)
     for path, rec in common.load_replays(PID):
         col.record(rec["case"], run_case(rec["case"]), nontrivial=True, classes=["replay"])
     ctx.required_classes = ["prefix-with-switch", "role=client", "role=server"] + ["point=" + p for p in set(CLIENT) | set(SERVER)] + \
